@@ -27,7 +27,7 @@ func init() {
 				"the answer flag, each written to its own byte range (no overlapping shifts). R8: every rule-list engine constructor " +
 				"receives the empty cache or a result cache created for it alone, once per engine.",
 			NotCovered: "equality of verdicts with and without caches over all list contents; client-specific modifiers ($client), which the property excludes.",
-			Rules: map[string]string{"C12-R22": "filterstorage.resetRuleLists installs exactly the lists it was given: it never reads the map it replaces and never writes into its argument (a list kept from the previous refresh because it looks unchanged keeps its old engine and result cache)", "C12-R21": "hash-prefix refresh: once Storage.Reset has published the new hash set, every path to a return clears the result cache (no early return between the two)", "C12-R20": "filterstorage forGroup and forClient hand out a composite filter built in this call from the lists that are current now (composite.New on every path): no filter assembled earlier, with the lists and result caches of an older refresh, is kept and handed out again", "C12-R19": "hashprefix.FilterRequest looks its verdict up and stores it under one cache key, computed from the request's own host, type and class", "C12-R17": "the clone functions of dnsmsg put no object of the source message into the clone (every option, record and slice is taken from a pool or copied)", "C12-R16": "hash-prefix storage and filter publish new state only after a successful load (shared with C13-R3)", "C12-R15": "an answer served from a result cache has the response code of the answer that was stored (SetReply resets it)", "C12-RC": "class rules (error chains, shadowed results, character classes, crossed arguments, pool constructors, array pools, loop completeness, loop-carried buffers, replacing setters, complete clones, Grow arithmetic, pooled-buffer escape, sorted searches, fresh decode targets, per-iteration objects, whole-message copies, codec guards) over the packages this property rests on", "C12-R14": "serviceblock.Filter.Refresh computes the new service map from the new index alone (never reads the map it replaces)", "C12-R13": "slices of a (possibly cached, shared) urlfilter.DNSResult are only read or copied, never stored or appended to", "C12-R1": "swap+clear in one write-locked section", "C12-R2": "query path read-holds the lock",
+			Rules: map[string]string{"C12-R23": "mainmw's filter returns, on every path, the result of a filter.Storage.ForConfig call of the same invocation: no composite filter is remembered across requests, so the one in use never holds the rule lists, engines or result caches from before the last refresh", "C12-R22": "filterstorage.resetRuleLists installs exactly the lists it was given: it never reads the map it replaces and never writes into its argument (a list kept from the previous refresh because it looks unchanged keeps its old engine and result cache)", "C12-R21": "hash-prefix refresh: once Storage.Reset has published the new hash set, every path to a return clears the result cache (no early return between the two)", "C12-R20": "filterstorage forGroup and forClient hand out a composite filter built in this call from the lists that are current now (composite.New on every path): no filter assembled earlier, with the lists and result caches of an older refresh, is kept and handed out again", "C12-R19": "hashprefix.FilterRequest looks its verdict up and stores it under one cache key, computed from the request's own host, type and class", "C12-R17": "the clone functions of dnsmsg put no object of the source message into the clone (every option, record and slice is taken from a pool or copied)", "C12-R16": "hash-prefix storage and filter publish new state only after a successful load (shared with C13-R3)", "C12-R15": "an answer served from a result cache has the response code of the answer that was stored (SetReply resets it)", "C12-RC": "class rules (error chains, shadowed results, character classes, crossed arguments, pool constructors, array pools, loop completeness, loop-carried buffers, replacing setters, complete clones, Grow arithmetic, pooled-buffer escape, sorted searches, fresh decode targets, per-iteration objects, whole-message copies, codec guards) over the packages this property rests on", "C12-R14": "serviceblock.Filter.Refresh computes the new service map from the new index alone (never reads the map it replaces)", "C12-R13": "slices of a (possibly cached, shared) urlfilter.DNSResult are only read or copied, never stored or appended to", "C12-R1": "swap+clear in one write-locked section", "C12-R2": "query path read-holds the lock",
 				"C12-R3": "generalised refresh discipline (F9)", "C12-R4": "no per-request data in shared caches (F8)", "C12-R5": "custom engine staleness gate", "C12-R9": "caches store clones and hand out clones (shared with C07-R4)",
 				"C12-R10": "custom rules received from the backend are stamped with the time of reception (time.Now), the only stamp that is newer than every cached engine",
 				"C12-R6":  "collision checks", "C12-R7": "cache key dependence and injective packing", "C12-R8": "one result cache per engine"},
@@ -35,6 +35,8 @@ func init() {
 }
 
 func runC12(c *an.Ctx) {
+	c.Floor("C12-R23", 1)
+	c12FilterPerRequest(c, "C12-R23")
 	// ---- R22: a refresh installs the new rule lists as they are
 	c.Floor("C12-R22", 1)
 	c12InstallsAsGiven(c, "C12-R22")
